@@ -76,7 +76,30 @@ func (i *InMemoryStore) GetSession(fseid uint64) (PFCPSession, bool) {
 		return PFCPSession{}, false
 	}
 
+	// The rules are handed out as a copy: handlers modify them in place and only
+	// publish the result with PutSession() when the request has been applied.
+	session.PacketForwardingRules = session.PacketForwardingRules.clone()
+
 	logger.PfcpLog.With("session", session).Debugln("Got PFCP session from local store")
 
 	return session, ok
+}
+
+// clone returns a deep copy of the rules that shares no memory with the original.
+func (p PacketForwardingRules) clone() PacketForwardingRules {
+	c := PacketForwardingRules{
+		pdrs: make([]pdr, len(p.pdrs), len(p.pdrs)+MaxItems),
+		fars: make([]far, len(p.fars), len(p.fars)+MaxItems),
+		qers: make([]qer, len(p.qers), len(p.qers)+MaxItems),
+	}
+
+	copy(c.pdrs, p.pdrs)
+	copy(c.fars, p.fars)
+	copy(c.qers, p.qers)
+
+	for i := range c.pdrs {
+		c.pdrs[i].qerIDList = append([]uint32{}, p.pdrs[i].qerIDList...)
+	}
+
+	return c
 }
